@@ -48,7 +48,7 @@ def mk_crypto(ks, salt=b''):
     return A.mk_crypto(bits, integ, PRF_FOR[integ], sk_e, sk_a)
 
 
-def build(case):
+def build(case, again=False):
     """library-protected datagram for case {'m', 'ks', 'salt', 'iv', 'residue'}"""
     m = case['m']
     inner = list(m['payloads'])
@@ -64,15 +64,28 @@ def build(case):
     salt = bytes.fromhex(case.get('salt', ''))
     crypto = mk_crypto(case['ks'], salt)
     lib = msggen.lib_message(dict(m, payloads=[]), crypto=crypto, iv=bytes.fromhex(case['iv']), inner=inner)
-    return bytes(lib.to_bytes()), inner, crypto
+    data = bytes(lib.to_bytes())
+    if again:
+        # the same Message object serialised once more (a daemon does this when it logs and sends): still a protected
+        # message over the same payloads, so it has to parse back under the same keys as well
+        return data, inner, crypto, bytes(lib.to_bytes())
+    return data, inner, crypto
 
 
 def check_roundtrip(case, pure=False):
     fails = []
     try:
-        data, inner, crypto = build(case)
+        data, inner, crypto, data2 = build(case, again=True)
     except Exception as ex:
         return [Failure(f'protect-raises:{type(ex).__name__}', f'{type(ex).__name__}: {ex}')], None
+    try:
+        back2 = A.Message.parse(data2, crypto=crypto)
+        have2 = msggen.abs_message(back2)['inner']
+        if len(have2) != len(inner) or any(not msggen.same_payload(w, h) for w, h in zip(inner, have2)):
+            fails.append(Failure('second-serialisation-differs', 'the same message serialised a second time parses back to other payloads'))
+    except Exception as ex:
+        fails.append(Failure(f'second-serialisation-unparsable:{type(ex).__name__}',
+                             f'the same message serialised a second time does not parse under its own keys: {type(ex).__name__}: {ex}'))
     bits, integ, sk_e, sk_a = mk_keys(case['ks'], bytes.fromhex(case.get('salt', '')))
     il = K.icv_len(integ)
     # reference view
